@@ -168,6 +168,8 @@ def run_for(eng, node, fr, path):
             except ContinueExc:
                 continue
         return
+    if isinstance(it, TermList) and spec is not None and spec.get("fold") == "CAPPOS" and "inv" in spec:
+        return fold_cappos(eng, node, fr, path, it, spec)
     if isinstance(it, (SymSeq, MapList)):
         if spec is not None and "inv" in spec:
             return cut_for(eng, node, fr, path, it, spec)
@@ -283,6 +285,52 @@ def cut_for(eng, node, fr, path, it, spec):
         path.oblige(f"{name}: invariant preserved", zterm(g), {"kind": "loop-step"})
         raise PathEnd("loop body checked")
     path.assume(zterm(eval_inv(eng, spec, "inv", fr, path, {"K": it.length, "SEQ": it, "ENTRY": entry})))
+
+
+def fold_cappos(eng, node, fr, path, it, spec):
+    """`for (group, start, end) in <list built by CAPPOS(match, include_empty, relative, N)>`: the list is defined by recursion
+    on the group counter J = 1..N (entry J is appended iff it is kept), so the loop is cut on J: the invariant may mention J
+    (entries of the groups 1..J have been processed); the body runs for an arbitrary kept entry J"""
+    from . import remodel as RM
+    from .specsym import cappos_entry
+    t = it.term
+    if not (z3.is_app(t) and t.decl().name() == "CAPPOS" and t.num_args() == 7):
+        raise Limitation("fold loop over a list that is not an application of CAPPOS")
+    pat, fl, tx, k, ie, rel, n = [t.arg(i) for i in range(7)]
+    mods = [x for x in assigned_names(node.body) if x in fr.env]
+    name = f"{fr.func.qualname}: loop@{node.lineno}"
+    entry = dict(fr.env)
+    path.assume(n >= 0)
+    g0 = eval_inv(eng, spec, "inv", fr, path, {"J": 0, "ENTRY": entry})
+    path.oblige(f"{name}: invariant holds on entry", zterm(g0), {"kind": "loop-init"})
+    which = path.choose([("iterate", True), ("exit", True)], f"loop@{node.lineno}")
+    for x in mods:
+        fr.env[x] = havoc_kind(eng, path, fr.env[x], x, spec)
+    if which == 0:
+        j = eng.fresh("J", IntS)
+        path.assume(z3.And(j >= 1, j <= n))
+        path.assume(zterm(eval_inv(eng, spec, "inv", fr, path, {"J": j - 1, "ENTRY": entry})))
+        keep, none, sval, st_, en_ = cappos_entry(pat, fl, tx, k, ie, rel, j)
+        m = RM.MatchV(RM.Matches(SStr([Atom(pat, "opq")]), fl, SStr([Atom(tx, "opq")])), k) if False else None
+        # R5: a participating group lies inside its match, which lies inside the text; a non-participating one has span (-1, -1)
+        a = (pat, fl, tx, k)
+        ms, me = RM.MSTART(*a), RM.MEND(*a)
+        gs, ge = RM.GS(*a, j), RM.GE(*a, j)
+        path.assume(z3.And(ms >= 0, ms <= me, me <= z3.Length(tx)))
+        path.assume(z3.If(none, z3.And(gs == -1, ge == -1), z3.And(ms <= gs, gs <= ge, ge <= me)))
+        if path.branch(keep, f"kept@{node.lineno}"):
+            eng.assign(node.target, (RM.OptStr(none, sval), st_, en_), fr, path)
+            fr.env["J_INNER"] = j
+            try:
+                eng.run_body(node.body, fr, path)
+            except ContinueExc:
+                pass
+            except BreakExc:
+                raise Limitation("break in a fold loop")
+        g = eval_inv(eng, spec, "inv", fr, path, {"J": j, "ENTRY": entry})
+        path.oblige(f"{name}: invariant preserved", zterm(g), {"kind": "loop-step"})
+        raise PathEnd("loop body checked")
+    path.assume(zterm(eval_inv(eng, spec, "inv", fr, path, {"J": n, "ENTRY": entry})))
 
 
 def run_while(eng, node, fr, path):
